@@ -34,6 +34,7 @@ type throwEvent struct {
 	idGenerator     id.IGenerator
 	mch             chan imessage
 	activated       atomic.Bool
+	triggered       bool // only touched by run: the event has been used as an entry point
 	awaitingActions []chan IAction
 	once            sync.Once
 	satisfier       *logic.ThrowEventSatisfier
@@ -67,17 +68,21 @@ func (evt *throwEvent) run(ctx context.Context, sender tracing.ISenderHandle) {
 			case eventMessage:
 				if !evt.activated.Load() {
 					if satisfied, _ := evt.satisfier.Satisfy(m.event); satisfied {
+						evt.triggered = true
 						evt.flow(ctx)
 					}
 				}
 			case startMessage:
+				evt.triggered = true
 				evt.flow(ctx)
 			case nextActionMessage:
-				if !evt.activated.Load() {
+				// an event used as an entry point (Trigger, ThrowAll, a sub-process's start) fires once;
+				// otherwise every token that reaches the event throws and moves on
+				if evt.triggered && evt.activated.Load() {
+					m.response <- completeAction{}
+				} else {
 					evt.activated.Store(true)
 					m.response <- flowAction{sequenceFlows: allSequenceFlows(&evt.outgoing)}
-				} else {
-					m.response <- completeAction{}
 				}
 			}
 		case <-ctx.Done():
